@@ -27,4 +27,6 @@ CASES = [
     dict(expect="silent", desc="combine_latest: on_error via synchronized wrapper", edits=[dict(file=CL,
          old="        def on_error(error: Exception) -> None:\n            with lock:\n                observer.on_error(error)\n",
          new="        from reactivex.internal.concurrency import synchronized\n        on_error = synchronized(lock)(observer.on_error)\n")]),
+    dict(expect="fire", desc="seed C43-r3/1: Observable.lock allocated lazily", names="K5-one-lock-object", edits=[dict(file="reactivex/observable/observable.py",
+         old="        self.lock = threading.RLock()\n        self._subscribe = subscribe\n", new="        self._subscribe = subscribe\n\n    @property\n    def lock(self):\n        if '_lock' not in self.__dict__:\n            self.__dict__['_lock'] = threading.RLock()\n        return self.__dict__['_lock']\n")]),
 ]
